@@ -125,6 +125,7 @@ type engineRT struct {
 	self map[[2]int]wazero.CompiledModule // (kind, startSection) -> self-starter, compiled on first use
 	cX   [nXMem]wazero.CompiledModule     // module X per memory shape, compiled on first use
 	cQ   wazero.CompiledModule
+	cL   [nLFam][2]wazero.CompiledModule // linked families: owner, importer (compiled on first use)
 }
 
 var (
@@ -162,6 +163,7 @@ var (
 
 type envSpec struct {
 	term    bool // runtime configured WithCloseOnContextDone(true) (the context variants)
+	alloc   bool // every instantiation context carries a tracking experimental.MemoryAllocator (allocModes)
 	flavour int
 	lsn     bool
 	snap    int
@@ -192,12 +194,140 @@ var envModes = func() (out []string) {
 
 func isEnvMode(mode string) bool { return strings.HasPrefix(mode, "env-") }
 
+// allocModes: the world's instantiation contexts carry a custom experimental.MemoryAllocator. Every linear
+// memory is then a tracked buffer whose Free overwrites it with 0xDD (what unmapping does to a reader, without
+// killing the process) and whose Free / Reallocate calls are recorded per buffer and attributed to the
+// instance whose instantiation allocated it.
+var allocModes = []string{"alloc-scrub"}
+
+func isAllocMode(mode string) bool { return strings.HasPrefix(mode, "alloc-") }
+
+// trackedMem is one LinearMemory handed out by the world's allocator.
+type trackedMem struct {
+	buf              []byte
+	fixed            bool // allocated with its maximum size up front (never moves: usable for shared memories)
+	frees            int
+	reallocAfterFree int
+}
+
+func (t *trackedMem) Reallocate(size uint64) []byte {
+	if t.frees > 0 {
+		t.reallocAfterFree++
+	}
+	if size > uint64(cap(t.buf)) {
+		if t.fixed {
+			return nil
+		}
+		nb := make([]byte, size, size*2)
+		copy(nb, t.buf)
+		t.buf = nb
+		return t.buf
+	}
+	t.buf = t.buf[:size]
+	return t.buf
+}
+
+func (t *trackedMem) Free() {
+	t.frees++
+	b := t.buf[:cap(t.buf)]
+	for i := range b {
+		b[i] = 0xDD
+	}
+}
+
+type trackAlloc struct {
+	mems   []*trackedMem
+	owners []allocOwner
+	users  map[string][]api.Module // owner name -> instances that import its memory
+}
+
+func (w *world) uses(owner string, importer api.Module) {
+	if w.alloc != nil {
+		if w.alloc.users == nil {
+			w.alloc.users = map[string][]api.Module{}
+		}
+		w.alloc.users[owner] = append(w.alloc.users[owner], importer)
+	}
+}
+
+// allocFinding reports the one allocator-side condition that the unchanged tree is known to show (findings.json):
+// the defining instance has ended, its buffer was freed, and an instance that imports the memory is still open.
+func (w *world) allocFinding() string {
+	if w.alloc == nil {
+		return ""
+	}
+	for _, o := range w.alloc.owners {
+		for _, t := range o.mems {
+			if t.frees > 0 && o.mod.IsClosed() {
+				for _, u := range w.alloc.users[o.name] {
+					if !u.IsClosed() {
+						return o.name
+					}
+				}
+			}
+		}
+	}
+	return ""
+}
+
+type allocOwner struct {
+	name string
+	mod  api.Module
+	mems []*trackedMem
+}
+
+func (a *trackAlloc) Allocate(capBytes, maxBytes uint64) experimental.LinearMemory {
+	t := &trackedMem{}
+	if maxBytes <= 16*PageSize {
+		t.fixed, t.buf = true, make([]byte, 0, maxBytes)
+	} else {
+		t.buf = make([]byte, 0, capBytes)
+	}
+	a.mems = append(a.mems, t)
+	return t
+}
+
+// own attributes the buffers allocated since mark to the instance mod (the one whose instantiation allocated them).
+func (w *world) own(name string, mod api.Module, mark int) {
+	if w.alloc != nil && mod != nil && len(w.alloc.mems) > mark {
+		w.alloc.owners = append(w.alloc.owners, allocOwner{name, mod, w.alloc.mems[mark:]})
+	}
+}
+
+func (w *world) mark() int {
+	if w.alloc == nil {
+		return 0
+	}
+	return len(w.alloc.mems)
+}
+
+// allocCheck is the allocator-side oracle: the buffer of an instance that is still open has not been freed, no
+// buffer is freed twice or reallocated after it was freed. "n/a" without a custom allocator.
+func (w *world) allocCheck() string {
+	if w.alloc == nil {
+		return "n/a"
+	}
+	for _, o := range w.alloc.owners {
+		for _, t := range o.mems {
+			switch {
+			case t.frees > 1:
+				return "freed-twice:" + o.name
+			case t.reallocAfterFree > 0:
+				return "reallocate-after-free:" + o.name
+			case t.frees > 0 && !o.mod.IsClosed():
+				return "freed-while-owner-open:" + o.name
+			}
+		}
+	}
+	return "ok"
+}
+
 // modeTag is the suffix that names the mode in signatures and outcome keys.
 func modeTag(mode string) string {
 	switch {
 	case mode == "":
 		return ""
-	case isEnvMode(mode):
+	case isEnvMode(mode), isAllocMode(mode):
 		return "+" + mode
 	}
 	return "+ctx-" + mode
@@ -206,6 +336,11 @@ func modeTag(mode string) string {
 func parseMode(mode string) envSpec {
 	if mode == "" {
 		return envSpec{}
+	}
+	for _, m := range allocModes {
+		if m == mode {
+			return envSpec{alloc: true}
+		}
 	}
 	if !isEnvMode(mode) {
 		for _, m := range ctxModes {
@@ -317,6 +452,17 @@ func (e *engineRT) qModule() wazero.CompiledModule {
 		e.cQ = c
 	}
 	return e.cQ
+}
+
+func (e *engineRT) lModule(fam, role int) wazero.CompiledModule {
+	if e.cL[fam][role] == nil {
+		c, err := e.rt.CompileModule(e.cctx, buildL(role == 0, fam == lShared, lOwnerNames[fam]))
+		if err != nil {
+			fw.Fatalf("%s: compile L%d/%d: %v", e.name, fam, role, err)
+		}
+		e.cL[fam][role] = c
+	}
+	return e.cL[fam][role]
 }
 
 func (e *engineRT) selfStarter(kind int, startSection bool) wazero.CompiledModule {
@@ -520,7 +666,10 @@ type world struct {
 	x      [nXMem]api.Module // module X per memory shape, instantiated on first use
 	xfn    [nXMem]map[int]api.Function
 	q      api.Module
-	raised error // the error value the most recent (= outermost so far) host level panicked with; nil after a swallow / a string
+	l      [nLFam][3]api.Module // linked families: owner, importer 1, importer 2 (instantiated on first use)
+	lfn    [nLFam][3]map[int]api.Function
+	alloc  *trackAlloc // allocModes: the allocator carried by ctx
+	raised error       // the error value the most recent (= outermost so far) host level panicked with; nil after a swallow / a string
 	A, B   api.Module
 	fn     [6]api.Function // the function objects reused across the whole word
 }
@@ -541,6 +690,10 @@ func newWorld(e *engineRT) *world {
 		// snapshots are enabled for every call and instantiation of the word
 		w.ctx = experimental.WithSnapshotter(w.ctx)
 	}
+	if e.env.alloc {
+		w.alloc = &trackAlloc{}
+		w.ctx = experimental.WithMemoryAllocator(w.ctx, w.alloc)
+	}
 	w.cur = w.ctx
 	w.base = runtime.NumGoroutine()
 	var err error
@@ -548,10 +701,13 @@ func newWorld(e *engineRT) *world {
 	if err != nil {
 		fw.Fatalf("%s: instantiate B: %v", e.name, err)
 	}
+	w.own("B", w.B, 0)
+	mk := w.mark()
 	w.A, err = e.rt.InstantiateModule(w.ctx, e.cA, wazero.NewModuleConfig().WithName("A").WithStartFunctions())
 	if err != nil {
 		fw.Fatalf("%s: instantiate A: %v", e.name, err)
 	}
+	w.own("A", w.A, mk)
 	w.fn[fADirect] = w.A.ExportedFunction("direct")
 	w.fn[fAIndirect] = w.A.ExportedFunction("indirect")
 	w.fn[fAViaB] = w.A.ExportedFunction("viab")
@@ -572,6 +728,13 @@ func (w *world) close() {
 	if w.q != nil {
 		w.q.Close(w.ctx)
 	}
+	for f := range w.l {
+		for r := 2; r >= 0; r-- {
+			if w.l[f][r] != nil {
+				w.l[f][r].Close(w.ctx)
+			}
+		}
+	}
 	for _, n := range []string{"n", "m"} { // free the names for the next word
 		if m := w.e.rt.Module(n); m != nil {
 			m.Close(w.ctx)
@@ -588,7 +751,73 @@ func (w *world) observeX() string {
 			p[i] = fmt.Sprintf("g=%d,closed=%v", uint32(x.ExportedGlobal("g").Get()), x.IsClosed())
 		}
 	}
-	return strings.Join(p[:], " ")
+	out := strings.Join(p[:], " ")
+	if w.q != nil {
+		// the memory that ximp imports: its owner q never ends; it holds the k of the last call of an ximp function
+		v, _ := w.q.Memory().ReadUint32Le(0)
+		out += fmt.Sprintf(" q=%d qclosed=%v", v, w.q.IsClosed())
+	}
+	return out
+}
+
+// observeL renders the linked families: which instances exist / are closed, the linked memory as the owner's
+// api.Memory shows it, whether every importer's api.Memory shows the same, the linked global, and what the guest
+// function peek() of the first open instance reads. released: with a custom allocator the buffer of a closed
+// owner has been handed back; its contents are not compared.
+func (w *world) observeL() string {
+	var p [nLFam]string
+	for f := range w.l {
+		p[f] = "-"
+		o := w.l[f][0]
+		if o == nil {
+			continue
+		}
+		st := ""
+		for r, m := range w.l[f] {
+			switch {
+			case m == nil:
+				st += lRoleNames[r] + "=- "
+			case m.IsClosed():
+				st += lRoleNames[r] + "=closed "
+			default:
+				st += lRoleNames[r] + "=open "
+			}
+		}
+		gl := uint32(o.ExportedGlobal("gl").Get())
+		if w.alloc != nil && o.IsClosed() {
+			p[f] = fmt.Sprintf("%smem=released gl=%d", st, gl)
+			continue
+		}
+		mem := o.Memory()
+		rd := func(m api.Memory, a uint32) uint32 { v, _ := m.ReadUint32Le(a); return v }
+		views := "same"
+		for _, m := range w.l[f][1:] {
+			if m != nil && (rd(m.Memory(), LCellPre) != rd(mem, LCellPre) || m.Memory().Size() != mem.Size()) {
+				views = "differ"
+			}
+		}
+		// what guest code reads: peek() of every open instance (fresh function objects); one value if they agree
+		peek := "-"
+		for _, m := range w.l[f] {
+			if m == nil || m.IsClosed() {
+				continue
+			}
+			v := ""
+			if res, err := m.ExportedFunction("peek").Call(w.ctx); err != nil {
+				v = classify(err)
+			} else {
+				v = fmt.Sprint(uint32(res[0]))
+			}
+			if peek == "-" {
+				peek = v
+			} else if peek != v {
+				peek = "differ(" + peek + "," + v + ")"
+				break
+			}
+		}
+		p[f] = fmt.Sprintf("%spre=%d post=%d tab=%d size=%d views=%s gl=%d peek=%s", st, rd(mem, LCellPre), rd(mem, LCellPost), rd(mem, LCellTab), mem.Size(), views, gl, peek)
+	}
+	return strings.Join(p[:], " | ")
 }
 
 // registry renders what the runtime's name registry says about the named start instances.
@@ -654,6 +883,14 @@ const (
 	ShHost1E9 // same with code 9
 	ShHost5W1 // depth 5, every level wraps with the custom type
 	ShHost2W3 // depth 2, every level joins
+	// linked families: an owner that defines and exports a memory, a table and a mutable global, and two importers
+	// of all three; lu* = unshared memory (1..2 pages), ls* = shared memory
+	ShLuO
+	ShLuI1
+	ShLuI2
+	ShLsO
+	ShLsI1
+	ShLsI2
 	NShapes
 	nBaseShapes = ShNFnA
 )
@@ -675,6 +912,12 @@ func shapeKinds(shape int) []int {
 		ks := make([]int, nSeq)
 		for i := range ks {
 			ks[i] = KSeq0 + i
+		}
+		return ks
+	case ShLuO, ShLuI1, ShLuI2, ShLsO, ShLsI1, ShLsI2:
+		ks := make([]int, nLnk)
+		for i := range ks {
+			ks[i] = KLnk0 + i
 		}
 		return ks
 	}
@@ -709,6 +952,7 @@ var shapes = [NShapes]shapeInfo{
 	{"nfnA", 'A'}, {"nfnB", 'B'}, {"nfnSelf", 'N'}, {"msecA", 'A'}, {"msecB", 'B'}, {"msecSelf", 'N'}, {"lookup", 'N'}, {"closeN", 'N'},
 	{"xown", 'X'}, {"xnone", 'X'}, {"xshared", 'X'}, {"ximp", 'X'},
 	{"host1W1", 'A'}, {"host1W2", 'A'}, {"host1W3", 'A'}, {"host1S", 'A'}, {"host1E0", 'A'}, {"host1E9", 'A'}, {"host5W1", 'A'}, {"host2W3", 'A'},
+	{"luO", 'L'}, {"luI1", 'L'}, {"luI2", 'L'}, {"lsO", 'L'}, {"lsI1", 'L'}, {"lsI2", 'L'},
 }
 
 type letter struct {
@@ -739,6 +983,18 @@ func parseLetter(s string) (letter, error) {
 	}
 	return l, nil
 }
+
+// linked families
+const (
+	lUnshared = iota
+	lShared
+	nLFam
+)
+
+var (
+	lOwnerNames = [nLFam]string{"lu", "ls"}
+	lRoleNames  = [3]string{"O", "I1", "I2"}
+)
 
 // Raise styles: how a host level that does not swallow the failure of its nested call raises it
 // (mode = catch level | style<<4).
@@ -884,14 +1140,21 @@ func (w *world) step(l letter, k uint32) (string, uint32) {
 		ms := l.Shape - ShXOwn
 		if w.x[ms] == nil {
 			if ms == xImported && w.q == nil {
+				mk := w.mark()
 				if w.q, err = w.e.rt.InstantiateModule(w.ctx, w.e.qModule(), wazero.NewModuleConfig().WithName("q")); err != nil {
 					fw.Fatalf("%s: instantiate q: %v", w.e.name, err)
 				}
+				w.own("q", w.q, mk)
 			}
 			var x api.Module
+			mk := w.mark()
 			x, err = w.e.rt.InstantiateModule(w.ctx, w.e.xModule(ms), wazero.NewModuleConfig().WithName("").WithStartFunctions())
 			if err != nil {
 				break // e.g. A is closed: its exports cannot be imported any more
+			}
+			w.own(shapes[l.Shape].name, x, mk)
+			if ms == xImported {
+				w.uses("q", x)
 			}
 			w.x[ms], w.xfn[ms] = x, map[int]api.Function{}
 		}
@@ -899,6 +1162,39 @@ func (w *world) step(l letter, k uint32) (string, uint32) {
 		if f == nil {
 			f = w.x[ms].ExportedFunction(fmt.Sprintf("seq%d", l.Kind-KSeq0))
 			w.xfn[ms][l.Kind] = f // the function object is reused when the letter occurs again
+		}
+		res, err = f.Call(w.cur, uint64(k))
+	case ShLuO, ShLuI1, ShLuI2, ShLsO, ShLsI1, ShLsI2:
+		fam, role := (l.Shape-ShLuO)/3, (l.Shape-ShLuO)%3
+		if w.l[fam][0] == nil {
+			// the owner exists as soon as the family is used
+			mk := w.mark()
+			o, oerr := w.e.rt.InstantiateModule(w.ctx, w.e.lModule(fam, 0), wazero.NewModuleConfig().WithName(lOwnerNames[fam]).WithStartFunctions())
+			if oerr != nil {
+				fw.Fatalf("%s: instantiate %s: %v", w.e.name, lOwnerNames[fam], oerr)
+			}
+			w.l[fam][0], w.lfn[fam][0] = o, map[int]api.Function{}
+			w.own(lOwnerNames[fam], o, mk)
+		}
+		if w.l[fam][role] == nil {
+			var im api.Module
+			mk := w.mark()
+			im, err = w.e.rt.InstantiateModule(w.ctx, w.e.lModule(fam, 1), wazero.NewModuleConfig().WithName("").WithStartFunctions())
+			if err != nil {
+				break // the owner is closed: its exports cannot be imported any more
+			}
+			w.l[fam][role], w.lfn[fam][role] = im, map[int]api.Function{}
+			w.own(shapes[l.Shape].name, im, mk) // an importer allocates nothing
+			w.uses(lOwnerNames[fam], im)
+		}
+		if l.Kind == KLnkClose {
+			err = w.l[fam][role].Close(w.ctx)
+			break
+		}
+		f := w.lfn[fam][role][l.Kind]
+		if f == nil {
+			f = w.l[fam][role].ExportedFunction(fmt.Sprintf("poke%d", l.Kind-KLnk0))
+			w.lfn[fam][role][l.Kind] = f // the function object is reused when the letter occurs again
 		}
 		res, err = f.Call(w.cur, uint64(k))
 	case ShLookup, ShCloseN:
@@ -938,8 +1234,12 @@ func (w *world) settle() {
 	}
 }
 
-// observe renders the externally visible state of one instance.
-func observe(m api.Module) string {
+// observe renders the externally visible state of one instance. released: the world has a custom allocator and
+// the instance is closed, so its buffer has been handed back to the allocator; its contents are not compared.
+func observe(m api.Module, alloc bool) string {
+	if alloc && m.IsClosed() {
+		return fmt.Sprintf("mem=released g=%d closed=true", uint32(m.ExportedGlobal("g").Get()))
+	}
 	mem := m.Memory()
 	rd := func(a uint32) uint32 { v, _ := mem.ReadUint32Le(a); return v }
 	tail, _ := mem.Read(TailStart, PageSize-TailStart)
